@@ -7,12 +7,12 @@ def replay_time_match(info, ce):
     import eqsig
     rng = np.random.RandomState(7)
     lags, master, steps = info['lags'], info['master'], info.get('steps', 2)
-    for n in (6, 9, 40):
+    for n, scale in ((6, 1.0), (9, 1.0), (40, 1.0), (9, 2.0 ** -24), (40, 2.0 ** -24), (40, 2.0 ** 20)):      # lag matching is scale free
         for trial in range(4):
-            x = rng.randn(n)
+            x = np.round(rng.randn(n) * 16) * scale / 16 if scale != 1.0 else rng.randn(n)
             arrs = []
             for lag in lags:
-                sl = rng.randn(n)
+                sl = (np.round(rng.randn(n) * 16) * scale / 16) if scale != 1.0 else rng.randn(n)
                 for i in range(n):
                     if 0 <= i - lag < n:
                         sl[i] = x[i - lag]
@@ -34,7 +34,8 @@ def replay_time_match(info, ce):
                     if not np.array_equal(v, x):
                         bad.append('master changed')
                 else:
-                    ok = np.allclose(v[:w], x[:w], atol=1e-12) or any(np.allclose(v[s:s + w], x[s:s + w], atol=1e-12) for s in range(1, steps))
+                    tol = 1e-12 * scale
+                    ok = np.allclose(v[:w], x[:w], rtol=0, atol=tol) or any(np.allclose(v[s:s + w], x[s:s + w], rtol=0, atol=tol) for s in range(1, steps))
                     if not ok:
                         bad.append('signal %d (lag %d) does not coincide with the master on the compared window' % (j, ([None] * 0 + [l for l in lags])[j - (1 if j > master else 0)]))
             if bad:
